@@ -11,11 +11,16 @@ AllGraphs(S) == SUBSET (S \X S)
 S3 == {1, 2, 3}
 S4 == {1, 2, 3, 4}
 S5 == {1, 2, 3, 4, 5}
+\* candidates = the nodes plus one session id the ECU does not know
+P3 == 1..4
+P4 == 1..5
+P5 == 1..6
 
 Iso3 == IsoGraphs(S3)            \*  64 graphs
 All3 == AllGraphs(S3)            \* 512 graphs (448 outside the assumption)
 Iso4 == IsoGraphs(S4)            \* 4096 graphs
 AllSkips3 == SUBSET S3
+SmallSkips3 == {{}, {2}, {1}}
 AllSkips4 == SUBSET S4
 SmallSkips4 == {{}} \cup {{s} : s \in S4}
 D14 == 1..4
@@ -32,7 +37,8 @@ OnlyThorough == {TRUE}
 Chain5 == {<<1, 2>>, <<2, 3>>, <<3, 4>>, <<4, 5>>}
 Shapes5 ==
   {Back(S5) \cup Chain5 \cup X : X \in RandomSetOfSubsets(150, 2, Free(S5))}
-  \cup {Back(S5) \cup {<<1, 2>>, <<2, 3>>} \cup X : X \in RandomSetOfSubsets(100, 2, {4, 5} \X {4, 5})}  \* unreachable component {4,5}
+  \cup {Back(S5) \cup {<<1, 2>>, <<2, 3>>} \cup X \cup Y : X \in SUBSET ({4, 5} \X {4, 5}),     \* unreachable component {4,5}
+                                                     Y \in RandomSetOfSubsets(6, 1, {2, 3} \X {2, 3})}
   \cup {Back(S5) \cup X : X \in RandomSetOfSubsets(150, 3, Free(S5))}
   \cup {Back(S5) \cup X : X \in RandomSetOfSubsets(150, 7, Free(S5))}
   \cup {Back(S5) \cup X : X \in RandomSetOfSubsets(100, 13, Free(S5))}
@@ -40,8 +46,8 @@ Skips5 == {{}, {2}, {5}, {1}, {2, 4}}
 
 \* spec -> code: behaviours of the design on 4-session graphs, request history kept;
 \* every finished behaviour is exported (always TRUE, used as an INVARIANT with -workers 1)
-SimGraphs4 == {Back(S4) \cup X : X \in RandomSetOfSubsets(12, 3, Free(S4))}
-                \cup {Back(S4) \cup X : X \in RandomSetOfSubsets(12, 6, Free(S4))}
+SimGraphs4 == {Back(S4) \cup X : X \in RandomSetOfSubsets(7, 3, Free(S4))}
+                \cup {Back(S4) \cup X : X \in RandomSetOfSubsets(7, 6, Free(S4))}
 SimGraphs4T == {Back(S4) \cup X : X \in RandomSetOfSubsets(60, 3, Free(S4))}
                 \cup {Back(S4) \cup X : X \in RandomSetOfSubsets(60, 6, Free(S4))}
                 \cup {Back(S4) \cup X : X \in RandomSetOfSubsets(30, 9, Free(S4))}
